@@ -230,7 +230,12 @@ func gBuildToken(authority gBlock, blocks []gBlock) *gToken {
 	g := &gToken{rng: &chainRNG{}}
 	g.root = ed25519.NewKeyFromSeed(vWide("root", 32))
 	g.rootPub = g.root.Public().(ed25519.PublicKey)
-	b := NewBuilder(g.root, WithRNG(g.rng))
+	bopts := []builderOption{WithRNG(g.rng)}
+	if vParamOpt("baseSyms") != 0 {
+		// the issuer works on top of a symbol table of its own (the verifier must be given the same one)
+		bopts = append(bopts, WithSymbols(&datalog.SymbolTable{"zz-base-0", "zz-base-1"}))
+	}
+	b := NewBuilder(g.root, bopts...)
 	for _, f := range authority.facts {
 		b.AddAuthorityFact(Fact{f.pred()}) // duplicates are refused by the builder: fine, a set
 	}
